@@ -23,13 +23,16 @@
    wvb / maskvb, w_okb / mask_okb = weights / mask with R (one per row) entries or a single broadcast entry;
    einsum_sizes_ok = np.einsum's rank / equal-size check (multi_mode_dot_e).
    Round 5 (55 statements): tensordot index formulas and core = einsum, multi_mode_dot core = einsum, validate_contraction,
-   tensordot(modes=k) = inner(n_modes=k), broadcast weights; round 6: any Python mode for mode_dot / multi_mode_dot (full). *)
+   tensordot(modes=k) = inner(n_modes=k), broadcast weights; round 6: any Python mode for mode_dot / multi_mode_dot (full);
+   round 8: modes=None as the literal range, all argument forms of _validate_contraction_modes, single weight in the memory MTTKRP,
+   vocabulary of the core-backend source tie (Proofs/TenalgProofsSrc.v: fold_res, comp_skip, py_get, np_dot). *)
 From Coq Require Import List Arith ZArith Ring_theory Permutation Lia Bool.
 From TLV Require Import Base.Shape Base.PyList Base.Tensor Base.BigSum Model.Base Model.Tenalg
   Proofs.TenalgProofs Proofs.TenalgProofsKR Proofs.TenalgProofsEinsum Proofs.TenalgProofsInner
   Proofs.TenalgProofsOuter Proofs.TenalgProofsSample Proofs.TenalgProofsSort Proofs.TenalgProofsEinsumVec Proofs.TenalgProofsMulti Proofs.TenalgProofsEinsumInner
   Proofs.TenalgProofsEinsumMttkrp Proofs.TenalgProofsEinsumKR Proofs.TenalgProofsEinsumOuter Proofs.TenalgProofsMultiGen Proofs.TenalgProofsMultiGen2 Proofs.TenalgProofsMemory
-  Proofs.TenalgProofsTdotE Proofs.TenalgProofsTdotC Proofs.TenalgProofsEinsumMulti Proofs.TenalgProofsValidate Proofs.TenalgProofsTdotInner Proofs.TenalgProofsKRBcast Proofs.TenalgProofsNegMode Proofs.TenalgProofsNegMulti Proofs.TenalgProofsReject Proofs.TenalgProofsRepeat Proofs.TenalgProofsEq Proofs.TenalgProofsAnyModes Proofs.TenalgProofsW1.
+  Proofs.TenalgProofsTdotE Proofs.TenalgProofsTdotC Proofs.TenalgProofsEinsumMulti Proofs.TenalgProofsValidate Proofs.TenalgProofsTdotInner Proofs.TenalgProofsKRBcast Proofs.TenalgProofsNegMode Proofs.TenalgProofsNegMulti Proofs.TenalgProofsReject Proofs.TenalgProofsRepeat Proofs.TenalgProofsEq Proofs.TenalgProofsAnyModes Proofs.TenalgProofsW1
+  Proofs.TenalgProofsSrc Proofs.TenalgProofsDefault Proofs.TenalgProofsMemW1.
 Import ListNotations.
 
 Definition ring_of {F} (Op : rops F) := ring_theory (r0 Op) (r1 Op) (radd Op) (rmul Op) (rsub Op) (ropp Op) (@eq F).
@@ -978,3 +981,94 @@ Proof.
   split; [vm_compute; reflexivity|]. split; [vm_compute; reflexivity|].
   eexists. split; [vm_compute; reflexivity | reflexivity].
 Qed.
+
+(* ------------------------------------------------------------------ round 8 *)
+(* multi_mode_dot called with modes=None: the code sets modes = range(len(matrix_or_vec_list)) (regenerated from the source on
+   every run, harness/props/C02_coretie.py); the literal Python-int routines of both backends on that list are the routines
+   with modes = None that C02_multi_mode_dot_core / C02_multi_mode_dot_backends_agree are about - for every operand list not
+   longer than the order of the tensor (any operand kinds, sizes, skip, transpose; rejections included) - FULL *)
+Theorem C02_multi_mode_dot_default_modes : forall (F : Type) (Op : rops F) (T : tensor F) (Ms : list (tensor F)) (skip : option nat) (tr : bool),
+  length Ms <= ndim T ->
+  multi_mode_dot_z Op T Ms (map Z.of_nat (seq 0 (length Ms))) skip tr = multi_mode_dot Op T Ms None skip tr /\
+  multi_mode_dot_e_z Op T Ms (map Z.of_nat (seq 0 (length Ms))) skip tr = multi_mode_dot_e Op T Ms None skip tr.
+Proof. exact @multi_mode_dot_default_modes. Qed.
+Print Assumptions C02_multi_mode_dot_default_modes.
+
+Example C02_nonvacuous_default_modes :
+  let T : tensor Z := mk [2; 3] [1; 2; 3; 4; 5; 6]%Z in let v : tensor Z := mk [2] [1; -1]%Z in
+  let M : tensor Z := mk [2; 3] [1; 0; 2; 0; 1; 1]%Z in
+  length [v; M] <= ndim T /\
+  multi_mode_dot_z ZR T [v; M] (map Z.of_nat (seq 0 2)) None false = Ok (mk [2] [-9; -6]%Z) /\
+  multi_mode_dot ZR T [v; M] None None false = Ok (mk [2] [-9; -6]%Z) /\
+  multi_mode_dot_e ZR T [v; M] None None false = Ok (mk [2] [-9; -6]%Z).
+Proof. exact default_modes_nonvacuous. Qed.
+
+(* the argument forms of _validate_contraction_modes beyond int and pair-of-lists: a pair of scalars (each resolved from the end
+   when negative), a pair mixing a scalar and a list (the scalar is the one-entry list), a flat sequence of ints of length <> 2
+   (the same modes on both tensors), a nested list inside such a sequence (rejected); every accepted form of either argument
+   returns mode lists that pass the explicit-list check validate_modes, i.e. the hypothesis of the tensordot theorems - FULL *)
+Theorem C02_validate_contraction_scalar_pair : forall (s1 s2 : list nat) (zi zj : Z) (i j : nat) (batched : bool),
+  py_index (length s1) zi = Some i -> py_index (length s2) zj = Some j -> nth i s1 0 = nth j s2 0 ->
+  validate_contraction s1 s2 (MSeq [SInt zi; SInt zj]) batched = Ok ([i], [j]).
+Proof. exact validate_contraction_scalar_pair. Qed.
+Print Assumptions C02_validate_contraction_scalar_pair.
+Theorem C02_validate_contraction_pair : forall (s1 s2 : list nat) (a1 a2 : mside) (batched : bool),
+  validate_contraction s1 s2 (MSeq [a1; a2]) batched = norm_modes s1 s2 (side_list a1) (side_list a2).
+Proof. exact validate_contraction_pair. Qed.
+Print Assumptions C02_validate_contraction_pair.
+Theorem C02_validate_contraction_flat : forall (s1 s2 : list nat) (l : list mside) (zs : list Z) (batched : bool),
+  length l <> 2 -> ints_of l = Some zs -> validate_contraction s1 s2 (MSeq l) batched = norm_modes s1 s2 zs zs.
+Proof. exact validate_contraction_flat. Qed.
+Print Assumptions C02_validate_contraction_flat.
+Theorem C02_validate_contraction_flat_nested : forall (s1 s2 : list nat) (l : list mside) (batched : bool),
+  length l <> 2 -> ints_of l = None -> validate_contraction s1 s2 (MSeq l) batched = Err.
+Proof. exact validate_contraction_flat_nested. Qed.
+Print Assumptions C02_validate_contraction_flat_nested.
+Theorem C02_validate_contraction_sound : forall (s1 s2 : list nat) (a : marg) (batched : bool) (m1 m2 : list nat),
+  validate_contraction s1 s2 a batched = Ok (m1, m2) -> validate_modes s1 s2 m1 m2 = true.
+Proof. exact validate_contraction_sound. Qed.
+Print Assumptions C02_validate_contraction_sound.
+
+Example C02_nonvacuous_validate_forms :
+  validate_contraction [2; 3] [3; 2] (MSeq [SInt (-1); SInt 0])%Z false = Ok ([1], [0]) /\
+  validate_contraction [2; 3] [3; 2] (MSeq [SInt 1; SList [0]%Z])%Z true = Ok ([1], [0]) /\
+  validate_contraction [2; 3] [2; 3] (MSeq [SInt (-1); SInt 0; SInt (-2)])%Z false = Ok ([1; 0; 0], [1; 0; 0]) /\
+  validate_contraction [2; 3] [2; 3] (MSeq [SInt 1; SList [0]%Z; SInt 0])%Z false = Err.
+Proof. exact validate_forms_nonvacuous. Qed.
+
+(* memory-efficient MTTKRP with a SINGLE weight (R <> 1; NumPy broadcasts `stacked * reshape(conj(weights), (1, -1))` as one
+   scalar): the textbook MTTKRP with the constant weight w[0]; with C02_mttkrp_memory (exactly R weights or none) this covers
+   every weight vector the routine accepts for R <> 1 - FULL (needs the conjugation laws) *)
+Theorem C02_mttkrp_memory_scalar_weight : forall (F : Type) (Op : rops F), ring_of Op -> conj_laws Op ->
+  forall (T : tensor F) (w : tensor F) (fs : list (tensor F)) (k R : nat),
+  wf T -> k < ndim T -> 0 < prod (shape T) -> 0 < R -> R <> 1 -> map nrows fs = shape T -> mats R fs ->
+  wf w -> prod (shape w) = 1 ->
+  exists Mt, mttkrp_memory Op T (Some w) fs k = Ok Mt /\ wf Mt /\ shape Mt = [nth k (shape T) 0; R] /\
+    forall i r, i < nth k (shape T) 0 -> r < R ->
+      get (r0 Op) Mt [i; r] =
+      ssum Op (remove_nth k (shape T))
+        (fun ridx => rmul Op (get (r0 Op) T (insert_at k i ridx))
+                             (rconj Op (rmul Op (kr_entry Op (remove_nth k fs) ridx r) (nth 0 (data w) (r0 Op))))).
+Proof. exact @mttkrp_memory_scalar_weight_spec. Qed.
+Print Assumptions C02_mttkrp_memory_scalar_weight.
+
+Example C02_nonvacuous_mttkrp_memory_scalar_weight :
+  let A : tensor Z := mk [2; 2] [1; 2; 3; 4]%Z in let B : tensor Z := mk [3; 2] [1; 2; 3; 4; 5; 6]%Z in
+  let w : tensor Z := mk [1] [5]%Z in let T : tensor Z := mk [2; 3] [1; 2; 3; 4; 5; 6]%Z in
+  wf T /\ 0 < ndim T /\ 0 < prod (shape T) /\ 2 <> 1 /\ map nrows [A; B] = shape T /\ mats 2 [A; B] /\ wf w /\ prod (shape w) = 1 /\
+  mttkrp_memory ZR T (Some w) [A; B] 0 = Ok (mk [2; 2] [110; 140; 245; 320]%Z) /\
+  mttkrp ZR T (Some w) [A; B] 0 = Ok (mk [2; 2] [110; 140; 245; 320]%Z).
+Proof. exact mttkrp_memory_scalar_weight_nonvacuous. Qed.
+
+(* vocabulary of the core-backend source tie (the current Python source of core multi_mode_dot / kronecker /
+   unfolding_dot_khatri_rao is translated into it on every run and proved equal to the model routines for all inputs):
+   the comprehension [l[i] for i in range(len(l)) if i != s] is remove_nth s l (the skip of every routine), and a loop whose
+   body may raise (fold_res of its step function) is any recursive model function with the same base case and unrolling - FULL *)
+Theorem C02_source_skip_comprehension : forall (A : Type) (dflt : A) (s : nat) (l : list A), comp_skip dflt s l = remove_nth s l.
+Proof. exact @comp_skip_remove_nth. Qed.
+Print Assumptions C02_source_skip_comprehension.
+Theorem C02_source_loop_principle : forall (S X R : Type) (step : S -> X -> res S) (k : S -> res R) (model : list X -> S -> res R),
+  (forall st, model [] st = k st) -> (forall x r st, model (x :: r) st = rbind (step st x) (model r)) ->
+  forall l st, rbind (fold_res step l st) k = model l st.
+Proof. exact @fold_res_sim. Qed.
+Print Assumptions C02_source_loop_principle.
